@@ -160,8 +160,7 @@ Qed.
 Section S2S.
 Variable hash : bytes -> N.
 Variable sort : list (item Z) -> list (item Z).
-Hypothesis sort_perm : forall l, Permutation l (sort l).
-Hypothesis sort_sorted : forall l, Sorted (slot_le Z) (sort l).
+Hypothesis sort_is_ok : sort_ok sort.
 
 Theorem s2s_spec st kk vv s :
   length kk = length vv -> NoDup kk -> loadable kk -> Forall small vv ->
@@ -176,8 +175,8 @@ Proof.
   rewrite Hsl.
   set (m := match s2s_map st with Some x => x | None => new_map end).
   assert (Hl' : length kk = length ids) by lia.
-  destruct (get_spec Z hash sort sort_perm sort_sorted m kk ids s Hl' Hnd Hld) as [Hok Hg].
-  pose proof (len_spec Z hash sort sort_perm sort_sorted m kk ids Hl' Hld) as Hlen'.
+  destruct (get_spec Z hash sort sort_is_ok m kk ids s Hl' Hnd Hld) as [Hok Hg].
+  pose proof (len_spec Z hash sort sort_is_ok m kk ids Hl' Hld) as Hlen'.
   destruct (load hash sort m kk ids) as [m' r'] eqn:El. cbn [fst snd] in *.
   split; [exact Hok|]. split.
   - unfold s2s_get. cbn [s2s_map s2s_store]. rewrite Hg. cbn [bind].
